@@ -280,3 +280,77 @@ pub fn max_quotient_construct(r: &mut Rng) -> (i128, i128, u32) {
         return (x, y, k);
     }
 }
+
+// ---- Knuth-D adversarial operands (C16: "quotient-digit estimate too large by 1 or 2") ----
+// Operands are built from the *digits the algorithm will see*: the normalised divisor (yn1, yn0),
+// the quotient digit estimate and the first partial remainder, including the boundary where the
+// corrected partial remainder is exactly 2^64.  `nb` is the normalisation shift (1..=63).
+fn knuth_divisor(r: &mut Rng, nb: u32) -> (u128, u128, i128) {
+    let b64: u128 = 1 << 64;
+    let yn1: u128 = match r.below(6) {
+        0 => (1 << 63) + r.below(3) as u128,
+        1 => b64 - 1 - r.below(3) as u128,
+        2 => (1 << 63) + (r.next() >> 2) as u128,
+        _ => (1 << 63) | (r.next() >> 1) as u128,
+    };
+    let mask: u128 = !((1u128 << nb) - 1) & (b64 - 1);
+    let yn0: u128 = match r.below(5) {
+        0 => (b64 - 1) & mask,
+        1 => 0,
+        2 => (1u128 << nb) & (b64 - 1),
+        _ => (r.next() as u128) & mask,
+    };
+    let m = ((yn1 << 64) | yn0) >> nb;
+    (yn1, yn0, m as i128)
+}
+fn knuth_digit(r: &mut Rng, lim: u128) -> u128 {
+    // a quotient digit below lim
+    let v = match r.below(6) { 0 => 1, 1 => 2, 2 => 3, 3 => lim - 1, 4 => 1 << r.below(62), _ => (r.next() as u128) >> r.below(40) };
+    v.min(lim - 1).max(1)
+}
+fn knuth_rhat(r: &mut Rng, yn1: u128) -> u128 {
+    // first partial remainder (< yn1): boundary classes around 2^64 - yn1 (one correction step lands on exactly 2^64)
+    let b64: u128 = 1 << 64;
+    let edge = b64 - yn1;
+    let v = match r.below(8) { 0 => 0, 1 => 1, 2 => edge, 3 => edge.saturating_sub(1), 4 => edge + 1, 5 => yn1 - 1, 6 => edge / 2, _ => (r.next() as u128) % yn1 };
+    v.min(yn1 - 1)
+}
+/// (a, b, m) for i256_div_mod_floor: |a| * |b| = N has the chosen digits in the first (stage 1) or second (stage 2) quotient step
+pub fn knuth_i256(r: &mut Rng) -> Option<(i128, i128, i128)> {
+    let nb = match r.below(6) { 0 => 1, 1 => 2, 2 => 32, 3 => 63, _ => 1 + r.below(63) as u32 };
+    let (yn1, _yn0, m) = knuth_divisor(r, nb);
+    let stage2 = r.below(3) == 0;
+    let q = knuth_digit(r, 1 << 61);
+    let top = q.checked_mul(yn1)?.checked_add(knuth_rhat(r, yn1))?;      // xn32 (stage 1) or t (stage 2)
+    if top >= (1 << 126) { return None; }
+    let total_shift = if stage2 { 64 - nb } else { 128 - nb };
+    let bits = 128 - top.leading_zeros();
+    let t1 = (126 - bits).min(total_shift);
+    let t2 = total_shift - t1;
+    if t2 > 126 { return None; }
+    let a = (top << t1) as i128;
+    let b = 1_i128 << t2;
+    let (a, b) = if r.bool() { (a, b) } else { (b, a) };
+    Some((a, b, m))
+}
+fn modinv_u(a: u128, m: u128) -> Option<u128> { modinv(a % m, m) }
+/// (a, k, m) for i128_shifted_div_mod_floor / div_rounded: |a| * 10^k has the chosen digits in the first quotient step
+pub fn knuth_shifted(r: &mut Rng) -> Option<(i128, u32, i128)> {
+    let nb = 40 + r.below(24) as u32;
+    let (yn1, _yn0, m) = knuth_divisor(r, nb);
+    if yn1 % 5 == 0 { return None; }
+    let kmin = (126 - nb + 2) * 100 / 332 + 1;
+    let k = (kmin + r.below(3) as u32).min(26);
+    let p5 = 5u128.pow(k);
+    let rhat0 = knuth_rhat(r, yn1);
+    // q1 * yn1 + rhat0 = 0 (mod 5^k)
+    let inv = modinv_u(yn1 % p5, p5)?;
+    let q1 = mulmod((p5 - rhat0 % p5) % p5, inv, p5) + p5 * r.below(2) as u128;
+    if q1 == 0 || q1 >= (1 << 62) { return None; }
+    let xn32 = q1.checked_mul(yn1)?.checked_add(rhat0)?;
+    if xn32 % p5 != 0 || 128 < nb + k { return None; }
+    let core = xn32 / p5;
+    let sh = 128 - nb - k;
+    if (128 - core.leading_zeros()) + sh > 126 { return None; }
+    Some(((core << sh) as i128, k, m))
+}
